@@ -122,6 +122,9 @@ structure Sim (s : State K) (w : Worker K) (a : Abs) : Prop where
       | some p => if a.benc = true then w.mar = .okEnc ∧ w.enc = p else w.mar = .okVal p
   kmar : ∀ x, a.kMar = some x → a.marshalled = true ∧ ∀ c m, w.dec = some (c, some m) → (K.marshal m).isSome = x
   kyield : ∀ x, a.kYield = some x → a.decoded = true ∧ ∀ c r, w.dec = some (c, r) → (outcome K r).isSome = x
+  cnt_dec : w.nDec = if a.decoded = true then 1 else 0
+  cnt_cnt : w.nCnt = if a.counted = true then 1 else 0
+  cnt_pub : w.nPub = if a.pubd = true then 1 else 0
 
 /-- `Sim` only depends on the buffer the worker owns and on the (growing) log -/
 theorem Sim.frame {s s' : State K} {w : Worker K} {a : Abs} (h : Sim s w a)
